@@ -677,7 +677,9 @@ Lemma step_spec s e s1 o :
 Proof.
   pose proof (cf_sec CF) as Hsec. destruct (cf_flags CF) as (Hfi & Hfs & Hsi).
   intros H HI Hh Hev. pose proof HI as (I1 & I2 & I3 & I4).
-  unfold step in H. cbn [fx_done FIXED andb] in H. rewrite Hh in H. destruct e as [|seg|].
+  destruct e as [|seg| |code].
+  4: change (step FIXED map_ userbin heap verify s (Err code)) with (step FIXED map_ userbin heap verify s Disc) in H.
+  all: unfold step in H; cbn [fx_done FIXED andb] in H; rewrite Hh in H.
   - (* Start *)
     destruct (started s) eqn:Est.
     + assert (s1 = s /\ o = []) as (-> & ->) by (split; congruence). apply step_post_nil; auto.
@@ -757,6 +759,18 @@ Proof.
         split; [congruence|]. exists l. rewrite K4, K2. auto.
       * assert (s1 = s /\ o = []) as (-> & ->) by (split; congruence). apply step_post_nil; auto.
   - (* Disc *)
+    destruct (started s) eqn:Est; [|assert (s1 = s /\ o = []) as (-> & ->) by (split; congruence); apply step_post_nil; auto].
+    unfold disconnect in H. cbn [fx_disc FIXED andb] in H.
+    assert (negb (downloading s) || negb (downloaded s =? expected s) = true) as Hc.
+    { destruct (downloading s) eqn:Hd; [|reflexivity]. destruct (I4 eq_refl Hh eq_refl) as [_ Hlt].
+      cbn [negb orb]. apply negb_true_iff. apply Z.eqb_neq. lia. }
+    rewrite Hc in H. unfold reboot in H.
+    assert (s1 = halt s /\ o = [OFlag FLAG_IDLE; ORestart]) as (-> & ->) by (split; congruence).
+    unfold step_post. split; [apply Inv_halt; auto|]. split; [cbn [halt downloading expected]; auto|].
+    split. { intros x [<-|[<-|[]]] []. }
+    split. { right. split; [reflexivity|]. exists [], [OFlag FLAG_IDLE; ORestart]. split; [reflexivity|]. split; constructor. }
+    intros X. exfalso. revert X. apply no_finish_idle.
+  - (* Err: the same code path *)
     destruct (started s) eqn:Est; [|assert (s1 = s /\ o = []) as (-> & ->) by (split; congruence); apply step_post_nil; auto].
     unfold disconnect in H. cbn [fx_disc FIXED andb] in H.
     assert (negb (downloading s) || negb (downloaded s =? expected s) = true) as Hc.
@@ -898,7 +912,9 @@ Theorem C18_otherwise_idle_and_restart_thm : forall f fs evs s' outs,
   (halted s' = false -> started s' = true ->
      step FIXED map_ userbin heap verify s' Disc = (halt s', [OFlag FLAG_IDLE; ORestart])) /\
   (downloading s' = true -> downloaded s' = expected s' -> halted s' = true) /\
-  (In OUpgradeReboot outs -> In (OFlag FLAG_FINISH) outs).
+  (In OUpgradeReboot outs -> In (OFlag FLAG_FINISH) outs) /\
+  (halted s' = false -> started s' = true -> forall code,
+     step FIXED map_ userbin heap verify s' (Err code) = (halt s', [OFlag FLAG_IDLE; ORestart])).
 Proof.
   intros f fs evs s' outs Hev Hrun. apply run_spec in Hrun; auto; [|apply Inv_init].
   destruct Hrun as ((I1 & I2 & I3 & I4) & _ & _ & A4 & _).
@@ -913,10 +929,18 @@ Proof.
   split.
   { intros Hd He. destruct (halted s') eqn:Hh; [reflexivity|]. destruct (I1 Hd) as (Hst & _).
     destruct (I4 Hst eq_refl Hd) as [_ Hlt]. lia. }
-  intros X. destruct A4 as [[_ Hb]|[_ (pre & tail & -> & Hb & Ht)]].
-  - rewrite Forall_forall in Hb. destruct (Hb _ X).
-  - apply in_app_or in X. destruct X as [X|X]; [rewrite Forall_forall in Hb; destruct (Hb _ X)|].
-    apply in_or_app. right. destruct (halting_tail_cases _ Ht) as [(b & sg & ->)|(_ & Hn & _)]; [cbn; auto|contradiction].
+  split.
+  { intros X. destruct A4 as [[_ Hb]|[_ (pre & tail & -> & Hb & Ht)]].
+    - rewrite Forall_forall in Hb. destruct (Hb _ X).
+    - apply in_app_or in X. destruct X as [X|X]; [rewrite Forall_forall in Hb; destruct (Hb _ X)|].
+      apply in_or_app. right. destruct (halting_tail_cases _ Ht) as [(b & sg & ->)|(_ & Hn & _)]; [cbn; auto|contradiction]. }
+  intros Hh Hst code.
+  change (step FIXED map_ userbin heap verify s' (Err code)) with (step FIXED map_ userbin heap verify s' Disc).
+  unfold step. cbn [fx_done FIXED andb]. rewrite Hh, Hst. unfold disconnect. cbn [fx_disc FIXED andb].
+  assert (negb (downloading s') || negb (downloaded s' =? expected s') = true) as Hc.
+  { destruct (downloading s') eqn:Hd; [|reflexivity]. destruct (I4 Hst Hh eq_refl) as [_ Hlt].
+    cbn [negb orb]. apply negb_true_iff. apply Z.eqb_neq. lia. }
+  rewrite Hc. reflexivity.
 Qed.
 
 Theorem C18_content_length_safe_thm : forall f fs evs s' outs,
